@@ -720,3 +720,56 @@ def check_c18(chk, tier):
                 "iff only the working directory's solstat_report.md changed and its bytes equal the report produced from a clean "
                 "state. Non-trivial = runs with a stale report present or not the first of their history.")
     chk.assumptions = ["mtimes are not compared (writing the report necessarily touches the working directory)"]
+
+
+# ---------------------------------------------------------------------------
+# C01 (tree search)
+# ---------------------------------------------------------------------------
+
+def _walk_describe(rec, why):
+    return ("walk:%s" % why,
+            "searching %s from node %s for %s returned %s (%s)" % (
+                rec.get("src"), rec.get("root"), str(rec.get("targets"))[:120], str(rec.get("result"))[:200], why))
+
+
+@prop("C01")
+def check_c01(chk, tier):
+    hb = vlib.build_harness("dev")
+    d = wdir("C01")
+    suffix = "quick" if tier == "quick" else "thorough"
+    r = vlib.tlc("MC_Walk", "MC_Walk.%s.cfg" % suffix, workers=8, timeout=3400, xmx="12g")
+    chk.add_tlc(r)
+    beh = r.records.get("REPLAY", [])
+    if len(beh) < 200:
+        raise ToolError("MC_Walk generated only %d trees" % len(beh))
+    if tier == "thorough":
+        neg = vlib.tlc("MC_Walk", "MC_Walk.neg.cfg", workers=4, timeout=900, expect_violation=True)
+        if neg.violated != "Exact":
+            raise ToolError("negative control SkipCatch did not violate Exact")
+        chk.extra["negative_controls"] = ["SkipCatch (walker without catch clauses) violates Exact"]
+    bpath = os.path.join(d, "behaviours.ndjson")
+    vlib.write_ndjson(bpath, beh)
+    # spec -> impl: every generated tree is rendered, parsed, projected (round trip checked) and searched by the real code
+    t1 = os.path.join(d, "trace-gen.ndjson")
+    res = vlib.harness(hb, ["gen-walk", bpath, t1], timeout=3000)
+    chk.add_harness(res, count_traces=False)
+    trace_validate(chk, "TV_Walk", t1, _walk_describe, timeout=3000)
+    # impl -> spec: corpus programs
+    corpus = prepare_corpus()
+    t2 = os.path.join(d, "trace-corpus.ndjson")
+    res2 = vlib.harness(hb, ["walk-record", corpus, "1" if tier == "thorough" else "0", t2], timeout=3000)
+    chk.add_harness(res2, count_traces=False)
+    trace_validate(chk, "TV_Walk", t2, _walk_describe, timeout=3000)
+    chk.exhaustive = True
+    chk.rule = ("Sig (SolAst.tla, 99 kinds, written from pt.rs) defines the full tree. TLC builds a tree for every frame of "
+                "Gen.tla (every (kind, slot) of Sig, list positions first/middle/last/sole, optional slots present/absent; "
+                "thorough: every composition of two frames) around a marker, runs the explicit-stack search on it for three "
+                "target sets and checks it against the declarative pre-order filter; FramesCoverSig guards against vacuity. Each "
+                "tree is rendered one token per line, parsed by solang and projected back (the round trip must reproduce the "
+                "tree); the real extract_target(s)_from_node is called from every node of every generated tree and from the "
+                "file / contracts / functions / sampled nodes of every corpus program, for the full Target set, every detector's "
+                "target set and rotating singletons; returned nodes are mapped to ids by structural equality; TV_Walk accepts a "
+                "full walk iff it is exactly the subtree in pre-order and a partial walk iff it is the full walk filtered. "
+                "Non-trivial = searches from a root with >= 4 nodes.")
+    chk.assumptions = ["the projector (exhaustive destructuring of every pt type, checked by rustc) is the reference for 'all nodes'",
+                       "solang-parser 0.1.18 is the definition of the parse tree"]
